@@ -85,6 +85,12 @@ partial def pExpr : P Res
   | "+" :: r => do
       let (x, r) ← pExpr r; let (y, r) ← pExpr r
       pure (x.bind fun a => y.bind fun b => chk (mkSum2 a b), r)
+  | "addz" :: r => do
+      let (zbs, r) ← pShape r; let (x, r) ← pExpr r
+      pure (x.bind fun a => chk (addZeroRight a zbs), r)
+  | "mulz" :: r => do
+      let (zbs, r) ← pShape r; let (x, r) ← pExpr r
+      pure (x.bind fun a => chk (mulZeroRight a zbs), r)
   | "*c" :: r => do
       let (cbs, r) ← pShape r; let (v, r) ← pFlat r; let (x, r) ← pExpr r
       pure (x.bind fun a =>
